@@ -3,13 +3,16 @@ package c01
 import (
 	"bytes"
 	"crypto/sha256"
+	"encoding/json"
 	"fmt"
 	"strings"
 	"testing"
 	"time"
 
 	"github.com/IBM/TSS/mpc/bls"
+	tss "github.com/IBM/TSS/types"
 	"verif/backend/blsb"
+	"verif/backend/s"
 	"verif/explore"
 	"verif/harness"
 	"verif/scen"
@@ -274,8 +277,158 @@ func tail(s []string, n int) []string {
 	return s
 }
 
+// ---------------------------------------------------------------------------------------------
+// (d) orchestrated signing among an authorised set (backend S)
+
+type scfg struct {
+	Mode    string   `json:"mode"`
+	N       int      `json:"n"`
+	Signers []uint16 `json:"signers"`
+}
+
+func (k scfg) String() string { return fmt.Sprintf("%s-n%d-signers%v", k.Mode, k.N, k.Signers) }
+
+type signOut struct {
+	res   map[uint16]*scen.Result
+	trace []string
+}
+
+func runSign(c *harness.C, k scfg, digest []byte, r *explore.Recorder) *signOut {
+	o := &signOut{res: map[uint16]*scen.Result{}}
+	rec := c.Bubble(func() {
+		members := ids(k.N)
+		w := world.New(members)
+		lg := s.NewLog()
+		po := func(n uint16) uint16 { return n }
+		st := &scen.Stack{Mode: k.Mode, Threshold: len(k.Signers) - 1, Membership: scen.Identity(members),
+			KGF: func(id uint16) tss.KeyGenerator { return s.New(id, po, lg) },
+			SF:  func(id uint16) tss.Signer { return s.New(id, po, lg) }}
+		st.Pick = func([]byte, int) []uint16 { return k.Signers }
+		for _, id := range members {
+			st.Build(w, id)
+		}
+		rs := scen.NewResults()
+		started := map[uint16]bool{}
+		w.Extra = func() []world.Event {
+			var ev []world.Event
+			for _, id := range k.Signers {
+				if started[id] {
+					continue
+				}
+				id := id
+				ev = append(ev, world.Event{Label: fmt.Sprintf("start %d", id), Do: func() {
+					started[id] = true
+					b, _ := json.Marshal(s.Stored{Parties: members, Thr: len(k.Signers) - 1, Key: s.DKGKey(members), Self: id})
+					w.Parties[id].Mpc.SetStoredData(b)
+					scen.StartSign(w, w.Parties[id], rs, fmt.Sprint(id), digest, "c01-sign-topic", deadline)
+				}})
+			}
+			return ev
+		}
+		w.Loop(r, deadline+time.Second)
+		for _, id := range k.Signers {
+			o.res[id] = rs.Get(fmt.Sprint(id))
+		}
+		o.trace = w.Trace
+		w.Stop()
+	})
+	if rec != nil && !harness.IsLeakPanic(rec) {
+		panic(rec)
+	}
+	return o
+}
+
+type signReplay struct {
+	Cfg     scfg  `json:"sign_cfg"`
+	Digest  int   `json:"digest"`
+	Choices []int `json:"choices"`
+}
+
+func signCase(k scfg, bound int) harness.Case {
+	return harness.Case{ID: fmt.Sprintf("sign/%v/d%d", k, bound), Run: func(c *harness.C) {
+		for di, dg := range digests {
+			if len(dg) > 64 {
+				continue
+			}
+			di, dg := di, dg
+			var last *signOut
+			e := &explore.Explorer{Stop: c.Expired}
+			e.Run = func(r *explore.Recorder) {
+				c.Exec(fmt.Sprintf("[sign] %v digest#%d %v", k, di, r.Prefix))
+				last = runSign(c, k, dg, r)
+			}
+			e.Visit = func(r *explore.Recorder) {
+				c.Add("executions", 1)
+				c.Add("transitions", len(last.trace))
+				rp := signReplay{k, di, explore.Trim(r.Choices())}
+				members := ids(k.N)
+				var first []byte
+				for _, id := range k.Signers {
+					res := last.res[id]
+					if res == nil || !res.Returned {
+						c.Violation("sign-returns", "sign-never-returned:"+k.Mode, fmt.Sprintf("%v digest#%d: signer %d never returned", k, di, id), rp)
+						return
+					}
+					if res.Err != nil {
+						c.Violation("sign-succeeds", "sign-error:"+k.Mode, fmt.Sprintf("%v digest#%d (len %d): signer %d: %v", k, di, len(dg), id, res.Err), rp)
+						return
+					}
+					if !s.VerifySig(s.DKGKey(members), dg, k.Signers, res.Data) {
+						c.Violation("signature-verifies", "sign-wrong-signature:"+k.Mode, fmt.Sprintf("%v digest#%d: signer %d returned a signature that does not verify for the requested digest", k, di, id), rp)
+						return
+					}
+					if first == nil {
+						first = res.Data
+					} else if !bytes.Equal(first, res.Data) {
+						c.Violation("signature-verifies", "sign-differs:"+k.Mode, fmt.Sprintf("%v digest#%d: participants returned different signatures", k, di), rp)
+						return
+					}
+				}
+				if c.Outcome("sign|"+k.String()+"|"+fmt.Sprint(di)+"|"+strings.Join(last.trace, ";")) && r.Deviations() > 0 {
+					c.Sample("sign-schedule", map[string]interface{}{"cfg": k.String(), "digest_len": len(dg), "choices": rp.Choices, "steps": len(last.trace)})
+				}
+			}
+			b := bound
+			if di != 2 {
+				b = 0 // schedules are explored for one digest, the others on the default schedule
+			}
+			e.Explore(nil, nil, b)
+		}
+	}}
+}
+
+func signerSets(n, size int) [][]uint16 {
+	var out [][]uint16
+	for m := 0; m < 1<<n; m++ {
+		var sset []uint16
+		for i := 0; i < n; i++ {
+			if m>>i&1 == 1 {
+				sset = append(sset, uint16(i+1))
+			}
+		}
+		if len(sset) == size {
+			out = append(out, sset)
+		}
+	}
+	return out
+}
+
 func gen(c *harness.C) []harness.Case {
 	var cases []harness.Case
+	for _, m := range []string{"loud", "silent"} {
+		for _, ns := range [][2]int{{3, 2}, {3, 3}, {4, 3}, {4, 2}} {
+			if !c.Thorough() && ns[0] == 4 && ns[1] == 2 && m == "silent" {
+				continue
+			}
+			for _, set := range signerSets(ns[0], ns[1]) {
+				b := 0
+				if ns[0] == 3 || c.Thorough() {
+					b = 1
+				}
+				cases = append(cases, signCase(scfg{m, ns[0], set}, b))
+			}
+		}
+	}
 	type plan struct {
 		k     cfg
 		bound int
